@@ -8,6 +8,7 @@ from ..core import rule, Ctx
 from ..index import AnalysisError, dotted, src, walk_no_nested, names_in
 from ..consteval import Evaluator, Unfoldable, fold, TOP
 from ..cfg import CFG
+from ..util import pred_is
 from .slots import BASEDEMUX, TAGS, P, DEMUXMODS
 
 MD = P + 'modularDemultiplexer/'
@@ -342,15 +343,25 @@ def r6(ctx):
     f = ctx.fn(BASEDEMUX, 'TaggedRecord.asFastq')
     cfg = CFG(f.body, exceptions=False)
     dom = cfg.dominators()
-    tests = [n for n in cfg.nodes if n.kind == 'test' and 'len(header)' in src(n.ast.test) and any(isinstance(x, ast.Raise) for x in n.ast.body)]
-    rets = [n for n in cfg.nodes if n.kind == 'stmt' and isinstance(n.ast, ast.Return) and 'header' in src(n.ast)]
+    # the header is the first value interpolated into the returned record (whatever the local is called)
+    rets = [n for n in cfg.nodes if n.kind == 'stmt' and isinstance(n.ast, ast.Return) and n.ast.value is not None]
+    hv = None
+    for r in rets:
+        fv = [x for x in ast.walk(r.ast.value) if isinstance(x, ast.FormattedValue)]
+        fv.sort(key=lambda x: (x.lineno, x.col_offset))
+        if fv and isinstance(fv[0].value, ast.Name):
+            hv = fv[0].value.id
+    tests = [n for n in cfg.nodes if n.kind == 'test' and hv is not None and f'len({hv})' in src(n.ast.test) and any(isinstance(x, ast.Raise) for x in n.ast.body)]
+    rets = [n for n in rets if hv is not None and hv in names_in(n.ast)]
     ok = len(tests) == 1 and bool(rets) and all(tests[0].id in dom[r.id] for r in rets)
     lim = None
     if tests:
         t = tests[0].ast.test
-        if isinstance(t, ast.Compare) and isinstance(t.comparators[0], ast.Constant):
-            lim = (type(t.ops[0]).__name__, t.comparators[0].value)
-    ctx.emit('C04-R6', ok and lim is not None and lim[1] <= 255, BASEDEMUX, tests[0].ast if tests else f, f'asFastq raises when len(header) {lim}: the test dominates every return of the record', key='length-guard')
+        cs = sorted({x.value for x in ast.walk(t) if isinstance(x, ast.Constant) and isinstance(x.value, int) and not isinstance(x.value, bool)})
+        for c_ in cs:
+            if pred_is(t, lambda e, c_=c_: e['n'] > c_, {f'len({hv})': 'n'}, consts=[c_, c_ + 1, c_ - 1]):
+                lim = c_
+    ctx.emit('C04-R6', ok and lim is not None and lim <= 255, BASEDEMUX, tests[0].ast if tests else f, f'asFastq raises iff len(header) > {lim}: the test dominates every return of the record', key='length-guard')
     skip = [c for c in walk_no_nested(f) if isinstance(c, (ast.ListComp, ast.GeneratorExp)) and 'doNotWrite' in src(c)]
     ctx.emit('C04-R6', bool(skip), BASEDEMUX, skip[0] if skip else f, 'only tags marked doNotWrite are left out of the header', key='doNotWrite', nontrivial=False)
 
